@@ -92,12 +92,19 @@ def extract(root, wit, defines=(), extra_flags=()):
             raise Broken("stx failed (rc=%d) on %s:\n%s" % (r.returncode, wit, r.stderr[-3000:]))
         os.replace(tmp, path)
         # keep the cache small
-        olds = sorted(glob.glob(os.path.join(CACHE, "facts-*.json")), key=os.path.getmtime)
-        for o in olds[:-40]:
+        def mtime(p_):
             try:
-                os.unlink(o)
+                return os.path.getmtime(p_)
             except OSError:
-                pass
+                return 0.0
+        # only the fact files proper count; memoised analyses derived from a fact file (facts-<sha>.json.*) go with it
+        olds = sorted([p_ for p_ in glob.glob(os.path.join(CACHE, "facts-*.json")) if p_.count(".json") == 1], key=mtime)
+        for o in olds[:-40]:
+            for q in [o] + glob.glob(o + ".*"):
+                try:
+                    os.unlink(q)
+                except OSError:
+                    pass
         return json.load(open(path)), path, False
     finally:
         fcntl.flock(lock, fcntl.LOCK_UN)
